@@ -100,6 +100,18 @@ def _cleanup_namespaces(elt):
     etree.cleanup_namespaces(elt, keep_ns_prefixes=list(keep))
 
 
+def _strip_customizations(cls):
+    """Returns the class that ``cls`` is a customized variant of (``cls``
+    itself when it is not one). ``__orig__`` can't be used for this: classes
+    that derive from a customized type (e.g. Uuid) inherit the ``__orig__`` of
+    their parent."""
+
+    while '__orig__' in vars(cls) and len(cls.__bases__) > 0:
+        cls = cls.__bases__[0]
+
+    return cls
+
+
 def _gen_tagname(ns, name):
     if ns is not None:
         name = "{%s}%s" % (ns, name)
@@ -520,7 +532,8 @@ class XmlDocument(SubXmlBase):
                     # the declared type spelled out: nothing to substitute.
                     newclass = cls
 
-                elif not self.issubclass(newclass, cls):
+                elif not issubclass(_strip_customizations(newclass),
+                                                  _strip_customizations(cls)):
                     # xsi:type can only select a type derived from the
                     # declared one. anything else would hand a value of an
                     # unrelated type to user code.
